@@ -61,6 +61,8 @@ def run(ctx):
     rule7(ctx, prog, flows)
     rule11(ctx, prog, flows)
     rule13(ctx, prog, flows)
+    rule15(ctx, prog, flows)
+    rule14(ctx, prog, flows)
     from props.c10 import bfs_expansion
 
     bfs_expansion(ctx, prog, flows, "R-C02-12", "on a directed graph the search then lists nodes that no chain of get_successor_nodes steps reaches: breadth_first_search disagrees with the successor queries and with the stored edges' direction")
@@ -354,6 +356,9 @@ def rule4(ctx, prog, flows):
     if ctx.config == "adjacency_matrix":
         check_refusal(ctx, g, "R-C02-4", prog.one("matrix::Graph::get_sparse_adjacency_matrix"), "multi_edges", True, "multi-edge graphs")
     ctx.floor("R-C02-4", "kind_restricted_queries", n, 10)
+    from guard import refusal_kinds
+
+    refusal_kinds(ctx, g, "R-C02-4", prog, floor=17)
     m = 0
     for p in sorted(prog.bodies):
         b = prog.bodies[p]
@@ -587,3 +592,256 @@ def rule13(ctx, prog, flows):
             ctx.require(ok, "R-C02-13", "false|%s|%d" % (cb.short.split("::")[-1], n), "has_nodes answers false after a failed lookup",
                         "has_nodes answers false on a test that is not a membership lookup (%s): a list in which every name is a node -- with a repetition, say -- is reported as missing a node, and every query guarded by has_nodes returns NodeNotFound for nodes that exist" % [fmt_desc(te)[:70] for (te, v, a) in direct], loc_str(d.span))
     ctx.counters["has_nodes_false_returns"] = n
+
+
+ACCUMULATORS = {"extend", "append", "push", "flat_map", "chain", "extend_from_slice", "concat", "flatten"}
+DEDUPS = {"unique", "unique_by", "dedup", "dedup_by", "dedup_by_key"}
+
+
+def rule15(ctx, prog, flows):
+    """get_edges_for_nodes / get_in_edges_for_nodes / get_out_edges_for_nodes answer with a SUB-LIST of get_all_edges():
+    `names` is a set of nodes, and a stored edge is listed once however often a name is repeated.  A result accumulated
+    name by name (extend / push / flat_map / chain over the per-node query) lists an edge once per occurrence of the
+    name -- and, for get_edges_for_nodes, twice when both endpoints are named -- unless the names went through a set
+    first; it then disagrees with get_all_edges, with the single-node queries and with the degrees."""
+    from engines import result_ctor_sites
+
+    ctx.rule("R-C02-15", "the multi-node edge queries list each stored edge once: a selection from get_all_edges, not an accumulation per name")
+    n = 0
+    for sfx in ("query::Graph::get_edges_for_nodes", "query::Graph::get_in_edges_for_nodes", "query::Graph::get_out_edges_for_nodes"):
+        bs = prog.find(sfx)
+        if not bs:
+            continue
+        b = bs[0]
+        fl = flows.of(b)
+        for (bb, st) in result_ctor_sites(b, "Ok"):
+            n += 1
+            sl = flows.slice(b.path, fl._op_reads(st.rv.ops[0]), up=False, down=True, data_only=True)
+            cal = set()
+            sets_ = False
+            for (bp, nd) in sl:
+                if nd[0] == "CALL":
+                    t = prog.bodies[bp].blocks[nd[1]].term
+                    if t.callee:
+                        cal.add(t.callee.short.split("::")[-1])
+                        if t.dest is not None and ("HashSet<" in (t.dest.ty or "") or "BTreeSet<" in (t.dest.ty or "")) and t.callee.short.split("::")[-1] in ("collect", "from_iter", "from"):
+                            sets_ = True
+            acc = sorted(cal & ACCUMULATORS)
+            # also: pushes into the returned vector through a &mut (not data-defining calls)
+            for cb in [b]:
+                for t in cb.calls():
+                    if t.callee and t.callee.short.split("::")[-1] in ("extend", "append", "push", "extend_from_slice") and t.args and t.args[0].place is not None:
+                        tgt = fl.slice_local(fl._op_reads(t.args[0]), data_only=True)
+                        src = fl.slice_local(fl._op_reads(st.rv.ops[0]), data_only=True)
+                        if any(x in src for x in tgt if x[0] == "L"):
+                            acc = sorted(set(acc) | {t.callee.short.split("::")[-1]})
+            per_name = any(c.startswith("get_") and c.endswith("_for_node") for c in cal) or any(t.callee and t.callee.short.split("::")[-1].endswith("_for_node") for t in b.calls())
+            # names that went through a set / dedup first make the per-name lists of in- resp. out-edges disjoint
+            # (one head, one tail); for get_edges_for_nodes an edge between two named nodes is still listed twice
+            deduped = (sets_ or bool(cal & DEDUPS)) and not sfx.endswith("get_edges_for_nodes")
+            bad = bool(acc) and per_name and not deduped
+            ctx.require(not bad, "R-C02-15", "sub-list|" + sfx.split("::")[-1], "%s selects from get_all_edges (each stored edge at most once)" % sfx.split("::")[-1],
+                        "%s accumulates its answer per name (%s over the per-node query): a name that occurs twice in `names` lists its edges twice, so the answer holds edges get_all_edges() holds once and disagrees with the single-node queries and the degrees" % (sfx.split("::")[-1], "/".join(acc)), loc_str(st.span))
+    ctx.floor("R-C02-15", "multi_node_queries", n, 3)
+
+
+# ---------------------------------------------------------------------------------------- R-C02-14
+PASS_THROUGH = ("clone", "borrow", "deref", "into", "from", "as_ref", "to_owned")
+
+
+def _world_defs(b, local, bb, idx, reach, dele):
+    """engines.reaching_defs on the CFG without the edges `dele`, restricted to the blocks `reach`"""
+    out, seen_blocks, seen = [], set(), set()
+
+    def scan(bi, upto):
+        blk = b.blocks[bi]
+        if upto > len(blk.stmts) and blk.term.k == "call" and blk.term.dest is not None and blk.term.dest.local == local and not blk.term.dest.proj:
+            return blk.term
+        for j in range(min(upto, len(blk.stmts)) - 1, -1, -1):
+            s_ = blk.stmts[j]
+            if s_.k == "assign" and s_.lhs.local == local and not s_.lhs.proj:
+                return s_
+        return None
+
+    work = [(bb, idx)]
+    while work:
+        bi, upto = work.pop()
+        d = scan(bi, upto)
+        if d is not None:
+            if id(d) not in seen:
+                seen.add(id(d))
+                out.append(d)
+            continue
+        for p_ in b.pred(bi):
+            if p_ in reach and (p_, bi) not in dele and p_ not in seen_blocks:
+                seen_blocks.add(p_)
+                work.append((p_, 10 ** 9))
+    return out
+
+
+def _world_forms(b, fl, local, bb, idx, reach, dele, depth=0, stop=()):
+    """the values `local` can hold at (bb, idx) in the pruned CFG, as strings over parameter / variable names: copies,
+    references and clones are looked through, a pair is the product of its components; None: something else"""
+    if depth > 12:
+        return None
+    if b.local_name(local) in stop:
+        return {b.local_name(local)}
+    # a local whose address is taken mutably can be changed behind the assignments seen here (mem::swap ..): not decided
+    if any(s_.k == "assign" and s_.rv.k == "ref" and s_.rv.j.get("bk") == "mut" and s_.rv.place is not None and s_.rv.place.local == local for s_ in b.stmts()):
+        return None
+    defs = _world_defs(b, local, bb, idx, reach, dele)
+    if not defs:
+        return {b.local_name(local) or "_%d" % local}
+    out = set()
+    for d in defs:
+        if getattr(d, "k", None) == "assign":
+            rv = d.rv
+            src = None
+            if rv.k in ("use", "cast") and rv.ops and rv.ops[0].place is not None and all(e == "*" for e in rv.ops[0].place.proj):
+                src = rv.ops[0].place.local
+            elif rv.k in ("ref", "copyderef") and rv.place is not None and all(e == "*" for e in rv.place.proj):
+                src = rv.place.local
+            if src is not None:
+                r = _world_forms(b, fl, src, d.bb, d.idx, reach, dele, depth + 1, stop)
+                if r is None:
+                    return None
+                out |= r
+                continue
+            if rv.k == "aggr" and rv.j.get("ak") == "tuple" and len(rv.ops) == 2 and all(o.place is not None and not o.place.proj for o in rv.ops):
+                a_ = _world_forms(b, fl, rv.ops[0].place.local, d.bb, d.idx, reach, dele, depth + 1, stop)
+                b_ = _world_forms(b, fl, rv.ops[1].place.local, d.bb, d.idx, reach, dele, depth + 1, stop)
+                if a_ is None or b_ is None:
+                    return None
+                out |= {"(%s, %s)" % (x, y) for x in a_ for y in b_}
+                continue
+            if rv.k in ("use", "ref", "copyderef"):
+                pl = rv.ops[0].place if rv.k == "use" and rv.ops else rv.place
+                if pl is not None:
+                    out.add(_strip(fmt_desc(panic.norm(fl.describe_def(d, depth=6)))))
+                    continue
+            return None
+        else:
+            # a call: clone / borrow / deref of one operand is looked through
+            t = d
+            if t.callee and t.callee.short.split("::")[-1] in PASS_THROUGH and len(t.args) == 1 and t.args[0].place is not None and all(e == "*" for e in t.args[0].place.proj):
+                r = _world_forms(b, fl, t.args[0].place.local, t.bb, len(b.blocks[t.bb].stmts), reach, dele, depth + 1, stop)
+                if r is None:
+                    return None
+                out |= r
+                continue
+            return None
+    return out
+
+
+def _strip(sx):
+    import re as _re
+
+    prev = None
+    while prev != sx:
+        prev = sx
+        sx = _re.sub(r"^(?:clone|borrow|deref|into|to_owned)\((.*)\)$", r"\1", sx.strip())
+        sx = sx.lstrip("&*")
+    return sx
+
+
+def rule14(ctx, prog, flows):
+    """R-C02-3 establishes that the keys of the two edge stores DEPEND on the right comparison and on specs.directed.
+    This rule reads the table: in the world specs.directed == true (the other outcomes deleted from the CFG) a key has ONE
+    form -- the pair as given; in the undirected worlds x > y and x < y (x, y the operands of the comparison) the smaller
+    one comes first.  `!directed || x > y` swaps the key of a directed edge whose endpoints come in descending order; `x < y`
+    puts the larger one first at one site and not at the others: either way the pair is stored, or looked up, under an
+    orientation the other sites do not use."""
+    ctx.rule("R-C02-14", "orientation table of the edge-store keys: one form on directed graphs; on undirected graphs the smaller of the two compared operands first, at every site")
+    guards = Guards(prog, flows)
+    n = 0
+    seen_k = {}
+    for p in sorted(prog.bodies):
+        b = prog.bodies[p]
+        fl = flows.of(b)
+        try:
+            sw = guards.spec_switches(b, "directed")
+        except Exception:
+            sw = []
+        if not sw:
+            continue
+        # the ordering tests of this body
+        cmps = []
+        for blk in b.normal_blocks():
+            if blk.term.k != "switch":
+                continue
+            at = fl.atom(blk.i)
+            if not at or at.get("ty") != "bool":
+                continue
+            te = panic.norm(at["test"])
+            neg = False
+            while isinstance(te, tuple) and te[0] == "unop" and te[1] == "Not":
+                neg = not neg
+                te = te[2]
+            op = x_ = y_ = None
+            if isinstance(te, tuple) and te[0] == "binop" and te[1] in ("Gt", "Lt", "Ge", "Le"):
+                op, x_, y_ = te[1], te[2], te[3]
+            elif isinstance(te, tuple) and te[0] == "call" and te[1].split("::")[-1] in ("gt", "lt", "ge", "le") and len(te[2]) == 2:
+                op, x_, y_ = te[1].split("::")[-1].capitalize(), te[2][0], te[2][1]
+            if op is None:
+                continue
+            f_succ, t_succ = dict(at["targets"]).get(0), at["otherwise"]
+            if neg:
+                f_succ, t_succ = t_succ, f_succ
+            cmps.append((blk.i, op, _strip(fmt_desc(x_)), _strip(fmt_desc(y_)), t_succ, f_succ))
+        groups = {}
+        for c in cmps:
+            groups.setdefault(frozenset((c[2], c[3])), []).append(c)
+        decided = set()
+        for gk, gcm in sorted(groups.items(), key=lambda kv: sorted(kv[0])):
+            if len(gk) != 2:
+                continue
+            X, Y = gcm[0][2], gcm[0][3]
+            dele_dir = {(bb, succs[False]) for (bb, succs) in sw if succs.get(False) is not None}
+            dele_und = {(bb, succs[True]) for (bb, succs) in sw if succs.get(True) is not None}
+            dele_gt, dele_lt = set(dele_und), set(dele_und)
+            for (cb, op, x_, y_, t_succ, f_succ) in gcm:
+                greater_true = (op in ("Gt", "Ge")) == ((x_, y_) == (X, Y))  # the test is true in the world X > Y
+                dele_gt.add((cb, f_succ if greater_true else t_succ))
+                dele_lt.add((cb, t_succ if greater_true else f_succ))
+            worlds = {"dir": dele_dir, "gt": dele_gt, "lt": dele_lt}
+            reach = {w: b.reach_avoiding_edges(list(d_), 0) for w, d_ in worlds.items()}
+            for t in b.calls():
+                if not t.callee or not any(t.callee.short.endswith(k) for k in KEYED) or len(t.args) < 2 or t.args[0].place is None or t.args[1].place is None:
+                    continue
+                if (t.bb, id(t)) in decided:
+                    continue
+                rty = t.args[0].place.ty or ""
+                if "HashMap<(T, T)" in rty:
+                    comp = "pair"
+                elif "HashMap<usize, std::collections::HashMap<usize" in rty:
+                    comp = "first"
+                elif "HashMap<usize, std::vec::Vec<std::sync::Arc<edge::Edge" in rty:
+                    comp = "second"
+                else:
+                    continue
+                key = t.args[1].place
+                if any(e != "*" for e in key.proj):
+                    continue
+                forms = {}
+                for w in worlds:
+                    forms[w] = _world_forms(b, fl, key.local, t.bb, len(b.blocks[t.bb].stmts), reach[w], worlds[w], 0, (X, Y)) if t.bb in reach[w] else set()
+                if any(f is None for f in forms.values()) or not (forms["gt"] or forms["lt"]):
+                    continue
+                leaves = {X, Y} if comp != "pair" else {"(%s, %s)" % (X, Y), "(%s, %s)" % (Y, X)}
+                if not all(f <= leaves for f in forms.values()):
+                    continue
+                decided.add((t.bb, id(t)))
+                n += 1
+                kid = "%s|%s|%s|%s" % (b.short, t.callee.short.split("::")[-1], comp, "/".join(sorted(leaves)))
+                seen_k[kid] = seen_k.get(kid, 0) + 1
+                if seen_k[kid] > 1:
+                    kid += "|%d" % seen_k[kid]
+                want_gt = {"first": {Y}, "second": {X}, "pair": {"(%s, %s)" % (Y, X)}}[comp]
+                want_lt = {"first": {X}, "second": {Y}, "pair": {"(%s, %s)" % (X, Y)}}[comp]
+                if forms["dir"] and len(forms["dir"]) != 1:
+                    ctx.violation("R-C02-14", kid, "in %s the key of this access can be %s on a DIRECTED graph: the key of a directed edge is the pair as given, whatever the order of its endpoints -- here a directed edge whose endpoints come in descending order is stored, or looked up, under the swapped key, where the other sites do not find it" % (b.short, " or ".join(sorted(forms["dir"]))), loc_str(t.span))
+                elif (forms["gt"] and forms["gt"] != want_gt) or (forms["lt"] and forms["lt"] != want_lt):
+                    ctx.violation("R-C02-14", kid, "in %s the key component is %s when %s > %s and %s when %s < %s on an undirected graph: the canonical key has the smaller of the two first (%s resp. %s); this site uses the other orientation than the sites that store the edge" % (b.short, "/".join(sorted(forms["gt"])), X, Y, "/".join(sorted(forms["lt"])), X, Y, "/".join(sorted(want_gt)), "/".join(sorted(want_lt))), loc_str(t.span))
+                else:
+                    ctx.ok("R-C02-14", kid, "directed: %s; undirected: %s if %s > %s, %s if %s < %s" % ("/".join(sorted(forms["dir"])) or "-", "/".join(sorted(forms["gt"])), X, Y, "/".join(sorted(forms["lt"])), X, Y), loc_str(t.span))
+    ctx.floor("R-C02-14", "oriented_key_accesses", n, 5)
